@@ -2,6 +2,7 @@ import SieveModel.Model.Show
 import SieveModel.Model.TableCodec
 import SieveModel.Generated.Tables
 import SieveModel.Model.Client
+import SieveModel.Spec.WF
 /-! Line-protocol driver: one request per line on stdin, one answer per line on stdout. -/
 
 structure DState where
@@ -91,6 +92,7 @@ def answer (st : DState) (line : String) : DState × String :=
   | "parse" :: rest =>
     let t := hexArg rest
     (st, Show.outcome t (Machine.parse st.table t))
+  | "wf" :: rest => (st, (Spec.wfBytes st.table (hexArg rest)).name)
   | ["table-reset"] => ({ st with table := Generated.builtinTable }, "ok")
   | ["table-clear"] => ({ st with table := [] }, "ok")
   | "table-add" :: fs =>
